@@ -132,6 +132,11 @@ type sessionCase struct {
 	// the peer's first header on the protected stream: "" complete, "noid" /
 	// "noversion": lacks what its clear-text header declared
 	protHdr string
+	// the transport handed to the constructor is a wrapper around the plain
+	// connection whose type also has a ConnectionState method (a metering /
+	// logging wrapper that may or may not carry TLS; here it does not and
+	// reports the zero state)
+	wrapped bool
 	// beforeProceed, when set, is called by the peer after it has read the
 	// client's <starttls/> and before it answers <proceed/> (used to overlap
 	// several sessions that share one feature value)
@@ -150,7 +155,7 @@ func (tc tcase) String() string {
 	var sb strings.Builder
 	fmt.Fprintf(&sb, "StartTLS(cfg nil=%v) reused for %d sessions (one Negotiator value for all: %v):", tc.nilCfg, len(tc.sessions), tc.sharedNeg)
 	for i, s := range tc.sessions {
-		fmt.Fprintf(&sb, "\n  session %d: domain=%s first-list=%s answer=%s after-proceed=%s honest-after-tls=%v tee=%v extra-double=%v clear-header-to=%q location=%q first-protected-header=%q", i, s.domain, s.first, s.answer, s.after, s.honest, s.tee, s.extraDbl, s.hdrTo, s.location, s.protHdr)
+		fmt.Fprintf(&sb, "\n  session %d: domain=%s first-list=%s answer=%s after-proceed=%s honest-after-tls=%v tee=%v extra-double=%v clear-header-to=%q location=%q first-protected-header=%q transport-wrapper-with-ConnectionState-method=%v", i, s.domain, s.first, s.answer, s.after, s.honest, s.tee, s.extraDbl, s.hdrTo, s.location, s.protHdr, s.wrapped)
 	}
 	return sb.String()
 }
@@ -174,6 +179,7 @@ func genCase(t *rapid.T) tcase {
 			hdrTo:    rapid.SampledFrom([]string{"", "", "own", "own", "foreign"}).Draw(t, "hdrTo"),
 			location: rapid.SampledFrom([]string{"", "", "xmpp.hosting.example.org"}).Draw(t, "location"),
 			protHdr:  rapid.SampledFrom([]string{"", "", "", "noid", "noversion"}).Draw(t, "protHdr"),
+			wrapped:  rapid.IntRange(0, 3).Draw(t, "wrapped") == 0,
 		})
 	}
 	return tc
@@ -224,6 +230,14 @@ func protHeader(from, kind string) string {
 	}
 	return h + ">"
 }
+
+// meteredConn is a transport wrapper of the kind applications put around
+// their connections; its type has a ConnectionState method because the
+// connection underneath may be a TLS connection.  Here it is not: the zero
+// state is reported.
+type meteredConn struct{ net.Conn }
+
+func (meteredConn) ConnectionState() tls.ConnectionState { return tls.ConnectionState{} }
 
 func secureDouble() xmpp.StreamFeature {
 	return xmpp.StreamFeature{
@@ -517,7 +531,11 @@ func runSessionNeg(sc sessionCase, feature xmpp.StreamFeature, forceTee *bool, s
 			if sc.location != "" {
 				loc = jid.MustParse(sc.location)
 			}
-			s, res.err = xmpp.NewSession(context.Background(), loc, local, conn, 0, neg)
+			var transport net.Conn = conn
+			if sc.wrapped {
+				transport = meteredConn{Conn: conn}
+			}
+			s, res.err = xmpp.NewSession(context.Background(), loc, local, transport, 0, neg)
 		})
 	}()
 	select {
@@ -725,6 +743,9 @@ func classify(tc tcase) (bool, []string) {
 	nt := len(tc.sessions) >= 2
 	for _, s := range tc.sessions {
 		classes = append(classes, "first-"+s.first, "answer-"+s.answer, "clear-header-to-"+s.hdrTo)
+		if s.wrapped {
+			classes = append(classes, "transport-wrapper-with-ConnectionState-method")
+		}
 		if s.answer == "proceed" {
 			classes = append(classes, "after-"+s.after)
 		}
